@@ -23,6 +23,7 @@ import traceback
 from fractions import Fraction
 from pathlib import Path
 
+sys.set_int_max_str_digits(0)
 VERIF = Path(__file__).resolve().parent.parent
 LEAN = VERIF / "lean"
 REPO = Path(os.environ.get("PDQ_REPO", "/repo"))
